@@ -2,6 +2,7 @@ package cmd
 
 import (
 	"fmt"
+	"sort"
 	"strings"
 
 	"github.com/evolbioinfo/goalign/align"
@@ -152,12 +153,12 @@ Output file is an unaligned set of sequences in fasta.
 		fmt.Fprintf(logf, "SeqName\tBestRef\tStartPosition\tExtractedSequenceLength\tFirstStop\n")
 		phasedseqs := align.NewSeqBag(align.UNKNOWN)
 		phasedseqsaa := align.NewSeqBag(align.UNKNOWN)
-		for p := range phased {
-			if p.Err != nil {
-				err = p.Err
-				io.LogError(p.Err)
-				return
-			}
+		var ordered []align.PhasedSequence
+		if ordered, err = orderPhased(phased, inseqs); err != nil {
+			io.LogError(err)
+			return
+		}
+		for _, p := range ordered {
 			if p.Removed {
 				fmt.Fprintf(logf, "%s\tN/A\tRemoved\tN/A\n", p.NtSeq.Name())
 			} else {
@@ -172,6 +173,26 @@ Output file is an unaligned set of sequences in fasta.
 
 		return
 	},
+}
+
+// orderPhased collects the phased sequences and puts them back in the order of
+// the input sequences: the threads deliver them in the order they finish, which
+// changes from one execution to the other. The first error stops the collection.
+func orderPhased(phased chan align.PhasedSequence, inseqs align.SeqBag) (ordered []align.PhasedSequence, err error) {
+	index := make(map[string]int)
+	for i, s := range inseqs.Sequences() {
+		index[s.Name()] = i
+	}
+	for p := range phased {
+		if p.Err != nil {
+			return nil, p.Err
+		}
+		ordered = append(ordered, p)
+	}
+	sort.SliceStable(ordered, func(i, j int) bool {
+		return index[ordered[i].NtSeq.Name()] < index[ordered[j].NtSeq.Name()]
+	})
+	return
 }
 
 func init() {
